@@ -279,8 +279,8 @@ def check(plan, ctx):
 
 def _after_in_place_edit(v, exp_na, ctx):
     """is_na / tolist / drop_na must describe the vector as it is now, not as it was when first asked."""
-    if len(v) == 0 or v.dtype.kind in "iub":
-        return
+    if len(v) == 0 or np.dtype(v.na_dtype) != v.dtype:
+        return                                  # the dtype cannot hold its missing value in place
     w = v.copy()
     w.is_na(); w.tolist()                       # anything cached would be cached now
     full = [j for j, m in enumerate(exp_na) if not m]
